@@ -395,6 +395,7 @@ func vC04DBLevel(t *testing.T, run *vC04Run, b vC04Beh, bi int, d *vC04DBs, useD
 			d.db[k].RevsLimit = DefaultRevsLimitNoConflicts
 		}
 	}
+	lastCur := [2]string{}
 	for _, st := range b.Steps {
 		i := st.I - 1
 		col, ctx := d.col[i], d.ctx[i]
@@ -435,8 +436,12 @@ func vC04DBLevel(t *testing.T, run *vC04Run, b vC04Beh, bi int, d *vC04DBs, useD
 				run.ids[st.R] = newRev
 				// the id Put made must be the documented digest of (parent, canonical body): recorded, judged by the spec
 				ev.idReturned = newRev
-				if retDoc != nil && retDoc.History[newRev] != nil {
+				{
 					gen, _ := ParseRevID(ctx, newRev)
+					usedParent := parent
+					if usedParent == "" {
+						usedParent = lastCur[i] // Put without _rev on a tombstoned document extends the current revision
+					}
 					canon := Body{}
 					if ev.b != "" {
 						canon["r"] = run.tagOf[newRev]
@@ -444,7 +449,7 @@ func vC04DBLevel(t *testing.T, run *vC04Run, b vC04Beh, bi int, d *vC04DBs, useD
 					if st.Del {
 						canon[BodyDeleted] = true
 					}
-					ev.idPredicted, _ = CreateRevID(gen, retDoc.History[newRev].Parent, canon)
+					ev.idPredicted, _ = CreateRevID(gen, usedParent, canon)
 				}
 			}
 		case "Hist":
@@ -496,6 +501,7 @@ func vC04DBLevel(t *testing.T, run *vC04Run, b vC04Beh, bi int, d *vC04DBs, useD
 				ev.wb = run.tokenOfBody(served)
 			}
 		}
+		lastCur[i] = ev.cur
 		run.events = append(run.events, ev)
 	}
 	return true
